@@ -266,3 +266,14 @@ Definition def_unwrap (e : err) : list err :=
   match e with EDef _ _ _ _ _ _ => unwrap_std e | _ => [] end.
 Definition def_cause (e : err) : option err :=
   match e with EDef _ _ _ c _ _ => c | _ => None end.
+
+(* fmt's %v of an error value: the Formatter of an errdef error decides; the harness's
+   custom formatters print "<custom-fmt ID VERB Error()>" *)
+Definition custom_fmt (id : N) (verb : string) (msg : string) : string :=
+  ("<custom-fmt " ++ dec id ++ " " ++ verb ++ " " ++ msg ++ ">")%string.
+Definition fmt_v (e : err) : string :=
+  match e with
+  | EDef _ d m _ _ _ | ERest _ d m _ _ _ =>
+      match d_fmt d with Some id => custom_fmt id "v" m | None => m end
+  | _ => err_msg e
+  end.
